@@ -31,6 +31,15 @@
 (*                satisfies the clauses of the statement), LoopOptimal     *)
 (*                (the loop ends on an optimal shape, unsat at Best+1),    *)
 (*                BoundGrows / StrictlyGrows (termination).                *)
+(*   FromAllocation  the front end of the rect stage (rect_io.get_alloc,   *)
+(*                select_box): an allocation (cells with per-module ratios *)
+(*                as AllocOps.tla represents them) and a module name give  *)
+(*                the InputProblem the search receives; LoadAllocation     *)
+(*                feeds it to DefineCoords / the improvement loop.         *)
+(*                Invariants FrontEndOK (same cell set, occupancy = ratio, *)
+(*                cells pairwise disjoint) and EndToEndExact (a module     *)
+(*                allocated with ratio 1 exactly on a k-STOG gets exactly  *)
+(*                that shape back, with zero error).                       *)
 (*   Table / FastTable  the cost of every k-STOG, tabulated; FastTable is  *)
 (*                the integer (bit mask) form the trace specification      *)
 (*                evaluates on observed grids; TableIsObj and FastIsTable  *)
@@ -49,22 +58,25 @@
 (* Values are JSON-shaped (tuples, integers, strings) because the same     *)
 (* operators judge observations of the real code in RectSearchTrace.tla.   *)
 (***************************************************************************)
-EXTENDS Geometry, TLC, Json
+EXTENDS Geometry, AllocOps, TLC, Json
 
 CONSTANTS GRIDS,    \* set of <<xs, ys>>: strictly increasing sequences of lattice coordinates (grid lines)
           SGRIDS,   \* the same, for "solve" mode (all occupancies are enumerated there, so these are smaller)
+          AGRIDS,   \* the same, for "alloc" mode (allocations with every 0/1 occupancy of the chosen module)
           KMAX,     \* numbers of boxes 1..KMAX
           DEN,      \* occupancy of a cell = p / DEN
           OCCVALS,  \* occupancy numerators enumerated in "solve" mode
           FNUM,     \* carrier.factor * (lattice unit)^2 = FNUM / FDEN
           FDEN,
           RATIO,    \* the f hyper-parameter; minimum-error mode: 2
-          MODES,    \* subset of {"gen", "enc", "solve"}
+          MODES,    \* subset of {"gen", "enc", "solve", "alloc"}
           BORDER,   \* "grid" (specified) | "literal" (as implemented, see above)
           UNIT,     \* lattice units per 1.0; only used by BORDER = "literal"
           EMIT      \* TRUE: behaviour generation (print the cases, do not explore them)
 
 VARIABLES mode,   \* which description is being explored
+          src,    \* "alloc" mode: [alloc, mod] = the allocation (sequence of AllocOps cells, file order) and the
+                  \* number of the module being normalised; <<>> otherwise
           pc,     \* "input" -> "start" -> "build" -> "closed"   |   "call" <-> "ret" -> "end"
           par,    \* [den, fnum, fden, ratio]: configuration of the call
           cells,  \* input_problem
@@ -78,7 +90,7 @@ VARIABLES mode,   \* which description is being explored
           bound,  \* dif[0], the requested cost bound
           res,    \* result of the last solve(): [sat, boxes, ret]
           last    \* boxes of the last satisfiable call (main's `boxes`)
-vars == <<mode, pc, par, cells, k, xs, ys, nbr, wsel, wreal, boxes, sel, bound, res, last>>
+vars == <<mode, src, pc, par, cells, k, xs, ys, nbr, wsel, wreal, boxes, sel, bound, res, last>>
 
 Sides == {"north", "south", "east", "west"}
 SeqRange(s) == { s[i] : i \in DOMAIN s }
@@ -304,6 +316,41 @@ EncBoxOK(ss, S) ==
 EncAdmits(ss) == \A i \in DOMAIN ss : EncBoxOK(SubSeq(ss, 1, i - 1), ss[i])
 
 (***************************************************************************)
+(* Front end: from an allocation to the InputProblem (rect_io.get_alloc +  *)
+(* select_box).  An allocation is a sequence of AllocOps cells             *)
+(* <<x1,y1,x2,y2,depth,fixed,ratios>> in file order, ratios[m] = -1 when   *)
+(* module m is not in the cell's map, else its numerator over par.den.     *)
+(* The search receives one cell per rectangle of the allocation, with the  *)
+(* module's ratio as occupancy (0 when the module is absent).              *)
+(***************************************************************************)
+FromAllocation(a, m) == [ i \in DOMAIN a |-> <<a[i][1], a[i][2], a[i][3], a[i][4], Num(a[i], m)>> ]
+\* Property-level clauses on an OBSERVED input problem `inp` for allocation a and module m
+FrontEndClauses(a, m, inp) ==
+  [ alloc_same_cells |-> /\ Len(inp) = Len(a)
+                         /\ { RectOf(inp[i]) : i \in DOMAIN inp } = Rects(SeqRange(a)),
+    alloc_occupancy  |-> \A i \in DOMAIN inp : \A j \in DOMAIN a :
+                            RectOf(inp[i]) = CRect(a[j]) => inp[i][5] = Num(a[j], m),
+    alloc_disjoint   |-> \A i \in DOMAIN inp : \A j \in DOMAIN inp :
+                            i # j => ~Overlaps(RectOf(inp[i]), RectOf(inp[j])) ]
+\* the module is allocated with ratio 1 on the cells Hot and 0 (or not at all) elsewhere
+Hot(a, m) == { i \in DOMAIN a : Num(a[i], m) = par.den }
+Exact01(a, m) == \A i \in DOMAIN a : Num(a[i], m) \in {0, par.den}
+\* ... and Hot is exactly the cell set of some n-STOG (evaluated on the tabulated shapes T = FastTable(n))
+MaskSum(mm) == FoldSeq(LAMBDA x, acc : acc + x, 0, mm)
+IsStogRegion(T, S) == \E e \in T : MaskSum(e[1]) = MaskOf(S)
+\* End-to-end contract on the boxes `fin` the improvement loop ends with: exactly that region, as an n-STOG,
+\* with zero error (occupied area selected = area selected = area of the module)
+EndToEndClauses(a, m, n, T, fin) ==
+  LET hot == Hot(a, m) IN
+  [ e2e_exact_shape |-> (Exact01(a, m) /\ hot # {} /\ IsStogRegion(T, hot)) =>
+                           /\ Len(fin) = n /\ IsKStog(fin)
+                           /\ UNION SeqRange(SelOf(fin)) = hot,
+    e2e_zero_error  |-> (Exact01(a, m) /\ hot # {} /\ IsStogRegion(T, hot) /\ Len(fin) = n /\ OnGrid(fin)) =>
+                           LET U == UNION SeqRange(SelOf(fin)) IN
+                           /\ SumOver(U, wsel) = SumOver(U, wreal)          \* nothing selected that is not occupied
+                           /\ SumOver(U, wsel) = SumOver(CellIds, wsel) ]  \* nothing occupied that is not selected
+
+(***************************************************************************)
 (* Grids used by the configuration files (GRIDS <- ...).  Coordinates are  *)
 (* lattice units; the harness embeds them into Python numbers (steps 1,    *)
 (* 1/2, 1/10, 1/3, 1e3, 1e-3, offset 37.3), which supplies integer and     *)
@@ -327,6 +374,10 @@ QuickSolveGrids == { U(1, 1), U(2, 1), U(2, 2), U(3, 2) }    \* solve mode, case
 ThoroughSolveGrids == QuickSolveGrids \cup { NonUniform23, U(3, 3) }
 ThoroughMcSolveGrids == McSolveGrids \cup { U(3, 1), << <<1, 2, 4>>, <<-1, 0, 2>> >> }
 DefectGrids == { Shifted33 }
+QuickAllocGrids == { U(2, 2), U(3, 1) }
+NonUniformPos23 == << <<1, 2, 4>>, <<0, 1, 3, 4>> >>          \* allocation documents cannot hold negative centres
+ThoroughAllocGrids == { U(2, 1), U(2, 2), U(3, 1), << <<1, 2, 4>>, <<0, 1, 3>> >> }         \* alloc mode, explored exhaustively
+GenAllocGrids == { U(2, 2), U(3, 2), NonUniformPos23, U(3, 3), Shifted33 }   \* alloc mode, case generation only
 
 (***************************************************************************)
 (* State machine                                                           *)
@@ -334,16 +385,32 @@ DefectGrids == { Shifted33 }
 Blank == <<>>
 AllOcc(g) == LET n == (Len(g[1]) - 1) * (Len(g[2]) - 1) IN
              [1..n -> OCCVALS] \ { [c \in 1..n |-> 0] }       \* a module to normalise occupies something
+\* "alloc" mode: two modules; module 1 has ratio 0 or 1 in every cell (every pattern but the empty one), module 2
+\* is absent / 0 / one half depending on the position of the cell (it must not influence anything)
+AllocsFor(g) ==
+  LET n  == (Len(g[1]) - 1) * (Len(g[2]) - 1)
+      gc == GridCells(g[1], g[2], [c \in 1..n |-> 0]) IN
+  { [ c \in 1..n |-> <<gc[c][1], gc[c][2], gc[c][3], gc[c][4], 0, 0, <<o[c], ((gc[c][1] + 2 * gc[c][2]) % 3) - 1>> >> ] :
+      o \in [1..n -> {0, DEN}] \ { [c \in 1..n |-> 0] } }
 InputsFor(g, m) ==
   IF m = "solve" THEN { GridCells(g[1], g[2], o) : o \in AllOcc(g) }
   ELSE { GridCells(g[1], g[2], [c \in 1..((Len(g[1]) - 1) * (Len(g[2]) - 1)) |-> DEN]) }
 
-Init == /\ mode \in MODES /\ pc = "input"
+Init == /\ mode \in MODES /\ pc = (IF mode = "alloc" THEN "alloc" ELSE "input")
         /\ par = [den |-> DEN, fnum |-> FNUM, fden |-> FDEN, ratio |-> RATIO]
-        /\ \E g \in (IF mode = "solve" THEN SGRIDS ELSE GRIDS) : cells \in InputsFor(g, mode)
+        /\ IF mode = "alloc"
+           THEN /\ \E g \in AGRIDS : \E a \in AllocsFor(g) : src = [alloc |-> a, mod |-> 1]
+                /\ cells = <<>>
+           ELSE /\ src = <<>>
+                /\ \E g \in (IF mode = "solve" THEN SGRIDS ELSE GRIDS) : cells \in InputsFor(g, mode)
         /\ k \in 1..KMAX
         /\ xs = Blank /\ ys = Blank /\ nbr = Blank /\ wsel = Blank /\ wreal = Blank
         /\ boxes = <<>> /\ sel = <<>> /\ bound = 0 /\ res = NoResult /\ last = <<>>
+
+\* get_alloc() + select_box(): the search receives the allocation's rectangles with the module's ratio
+LoadAllocation == /\ pc = "alloc" /\ pc' = "input"
+                  /\ cells' = FromAllocation(src.alloc, src.mod)
+                  /\ UNCHANGED <<mode, src, par, k, xs, ys, nbr, wsel, wreal, boxes, sel, bound, res, last>>
 
 \* definecoords() and the area weights
 DefineCoords == /\ pc = "input" /\ pc' = "start"
@@ -351,15 +418,15 @@ DefineCoords == /\ pc = "input" /\ pc' = "start"
                 /\ nbr' = [nx |-> NextMap(XsOf(cells)), px |-> PrevMap(XsOf(cells)),
                            ny |-> NextMap(YsOf(cells)), py |-> PrevMap(YsOf(cells))]
                 /\ wsel' = [ c \in CellIds |-> AreaSel(c) ] /\ wreal' = [ c \in CellIds |-> AreaReal(c) ]
-                /\ UNCHANGED <<mode, par, cells, k, boxes, sel, bound, res, last>>
+                /\ UNCHANGED <<mode, src, par, cells, k, boxes, sel, bound, res, last>>
 
 \* ---- Gen
 ChooseTrunk == /\ ~EMIT /\ mode = "gen" /\ pc = "start" /\ pc' = "build"
                /\ boxes' \in Trunks
-               /\ UNCHANGED <<mode, par, cells, k, xs, ys, nbr, wsel, wreal, sel, bound, res, last>>
+               /\ UNCHANGED <<mode, src, par, cells, k, xs, ys, nbr, wsel, wreal, sel, bound, res, last>>
 AddBranch == /\ ~EMIT /\ mode = "gen" /\ pc = "build" /\ Len(boxes) < k
              /\ \E b \in BranchesFor(boxes) : \E d \in Sides : OnSide(boxes[1], b, d) /\ boxes' = Append(boxes, b)
-             /\ UNCHANGED <<mode, pc, par, cells, k, xs, ys, nbr, wsel, wreal, sel, bound, res, last>>
+             /\ UNCHANGED <<mode, src, pc, par, cells, k, xs, ys, nbr, wsel, wreal, sel, bound, res, last>>
 \* ---- Enc
 EncBox == /\ ~EMIT /\ mode = "enc" /\ pc \in {"start", "build"} /\ Len(sel) < k /\ pc' = "build"
           /\ \E lilx \in LilSets(xs), bigx \in BigSets(xs) :
@@ -370,47 +437,55 @@ EncBox == /\ ~EMIT /\ mode = "enc" /\ pc \in {"start", "build"} /\ Len(sel) < k 
                        /\ Assigns(S, lilx, bigx, lily, bigy)
                        /\ BoxFits(sel, S)
                        /\ sel' = Append(sel, S)
-          /\ UNCHANGED <<mode, par, cells, k, xs, ys, nbr, wsel, wreal, boxes, bound, res, last>>
+          /\ UNCHANGED <<mode, src, par, cells, k, xs, ys, nbr, wsel, wreal, boxes, bound, res, last>>
 Close == /\ ~EMIT /\ mode \in {"gen", "enc"} /\ pc = "build" /\ pc' = "closed"
          /\ (mode = "gen" => Len(boxes) = k) /\ (mode = "enc" => Len(sel) = k)
-         /\ UNCHANGED <<mode, par, cells, k, xs, ys, nbr, wsel, wreal, boxes, sel, bound, res, last>>
+         /\ UNCHANGED <<mode, src, par, cells, k, xs, ys, nbr, wsel, wreal, boxes, sel, bound, res, last>>
 \* ---- solve() and the improvement loop of main()
 HasShapes == KStog(k) # {}
-Start == /\ ~EMIT /\ mode = "solve" /\ pc = "start" /\ pc' = "call"
-         /\ bound' = LET T == FastTable(k) IN IF T # {} THEN BestT(T) - 1 ELSE 0
-         /\ UNCHANGED <<mode, par, cells, k, xs, ys, nbr, wsel, wreal, boxes, sel, res, last>>
+\* ("solve" mode starts just below the optimum; "alloc" mode starts as the harness re-implementation of main()
+\* does, at bound 1 = any shape with a positive objective)
+Start == /\ ~EMIT /\ mode \in {"solve", "alloc"} /\ pc = "start" /\ pc' = "call"
+         /\ bound' = IF mode = "alloc" THEN 1
+                      ELSE LET T == FastTable(k) IN IF T # {} THEN BestT(T) - 1 ELSE 0
+         /\ UNCHANGED <<mode, src, par, cells, k, xs, ys, nbr, wsel, wreal, boxes, sel, res, last>>
 Call == /\ ~EMIT /\ pc = "call" /\ pc' = "ret"
         /\ res' \in SolveResults(k, bound)
-        /\ UNCHANGED <<mode, par, cells, k, xs, ys, nbr, wsel, wreal, boxes, sel, bound, last>>
+        /\ UNCHANGED <<mode, src, par, cells, k, xs, ys, nbr, wsel, wreal, boxes, sel, bound, last>>
 Iterate == /\ ~EMIT /\ pc = "ret" /\ res.sat = 1 /\ pc' = "call"
            /\ bound' = res.ret /\ last' = res.boxes
-           /\ UNCHANGED <<mode, par, cells, k, xs, ys, nbr, wsel, wreal, boxes, sel, res>>
+           /\ UNCHANGED <<mode, src, par, cells, k, xs, ys, nbr, wsel, wreal, boxes, sel, res>>
 Stop == /\ ~EMIT /\ pc = "ret" /\ res.sat = 0 /\ pc' = "end"
-        /\ UNCHANGED <<mode, par, cells, k, xs, ys, nbr, wsel, wreal, boxes, sel, bound, res, last>>
+        /\ UNCHANGED <<mode, src, par, cells, k, xs, ys, nbr, wsel, wreal, boxes, sel, bound, res, last>>
 
 \* ---- behaviour generation: one case per (grid, k) and per (grid, occupancy, k)
-EmitGrid == /\ EMIT /\ mode = "gen" /\ pc = "start" /\ pc' = "emitted" /\ UNCHANGED <<mode, par, cells, k, xs, ys, nbr, wsel, wreal, boxes, sel, bound, res, last>>
+EmitGrid == /\ EMIT /\ mode = "gen" /\ pc = "start" /\ pc' = "emitted" /\ UNCHANGED <<mode, src, par, cells, k, xs, ys, nbr, wsel, wreal, boxes, sel, bound, res, last>>
             /\ PrintT(ToJson([kind |-> "models", cells |-> cells, k |-> k, den |-> par.den, ratio |-> par.ratio,
                              fnum |-> par.fnum, fden |-> par.fden,
                              nshapes |-> Cardinality(KStog(k)), best |-> 0]))
-EmitSolve == /\ EMIT /\ mode = "solve" /\ pc = "start" /\ pc' = "emitted" /\ UNCHANGED <<mode, par, cells, k, xs, ys, nbr, wsel, wreal, boxes, sel, bound, res, last>>
+EmitSolve == /\ EMIT /\ mode = "solve" /\ pc = "start" /\ pc' = "emitted" /\ UNCHANGED <<mode, src, par, cells, k, xs, ys, nbr, wsel, wreal, boxes, sel, bound, res, last>>
              /\ PrintT(ToJson([kind |-> "solve", cells |-> cells, k |-> k, den |-> par.den, ratio |-> par.ratio,
                               fnum |-> par.fnum, fden |-> par.fden,
                               nshapes |-> Cardinality(FastTable(k)),
                               best |-> LET T == FastTable(k) IN IF T # {} THEN BestT(T) ELSE 0]))
 
-Next == \/ DefineCoords
+EmitAlloc == /\ EMIT /\ mode = "alloc" /\ pc = "start" /\ pc' = "emitted" /\ UNCHANGED <<mode, src, par, cells, k, xs, ys, nbr, wsel, wreal, boxes, sel, bound, res, last>>
+             /\ PrintT(ToJson([kind |-> "alloc", alloc |-> src.alloc, mod |-> src.mod, cells |-> cells, k |-> k,
+                              den |-> par.den, ratio |-> par.ratio, fnum |-> par.fnum, fden |-> par.fden,
+                              stog |-> IF IsStogRegion(FastTable(k), Hot(src.alloc, src.mod)) THEN 1 ELSE 0]))
+
+Next == \/ LoadAllocation \/ DefineCoords
         \/ ChooseTrunk \/ AddBranch \/ EncBox \/ Close
         \/ Start \/ Call \/ Iterate \/ Stop
-        \/ EmitGrid \/ EmitSolve
+        \/ EmitGrid \/ EmitSolve \/ EmitAlloc
 Spec == Init /\ [][Next]_vars
 
 (***************************************************************************)
 (* Invariants                                                              *)
 (***************************************************************************)
-TypeOK == /\ mode \in {"gen", "enc", "solve"} /\ k \in 1..KMAX
-          /\ pc \in {"input", "start", "build", "closed", "call", "ret", "end", "emitted"}
-InputIsGrid == IsGrid(cells)
+TypeOK == /\ mode \in {"gen", "enc", "solve", "alloc"} /\ k \in 1..KMAX
+          /\ pc \in {"alloc", "input", "start", "build", "closed", "call", "ret", "end", "emitted"}
+InputIsGrid == pc # "alloc" => IsGrid(cells)
 \* Gen = Decl: the construction generates exactly the tuples the statement describes (checked once per grid)
 GenIsDecl == (pc = "start" /\ mode = "gen") => KStog(k) = KStogDecl(k)
 \* every closed state of Gen is a k-STOG, as a tuple of rectangles and as a tuple of cell sets
@@ -422,10 +497,13 @@ EncSound == (mode = "enc" /\ pc = "closed") => Len(sel) = k /\ IsKStogSel(sel) /
 EncComplete == (mode = "gen" /\ pc = "closed") => EncAdmits(SelOf(boxes))
 \* solve(): the specified results satisfy the property clauses; the loop ends on an optimal shape
 SolveMeetsProperty == pc = "ret" => AllTrue(SolveClauses(k, bound, res))
-LoopOptimal == (pc = "end" /\ HasShapes) => LET T == Table(k) IN
+\* front end: the specified InputProblem satisfies the front-end clauses, and the loop's final boxes the contract
+FrontEndOK == (mode = "alloc" /\ pc # "alloc") => AllTrue(FrontEndClauses(src.alloc, src.mod, cells))
+EndToEndExact == (mode = "alloc" /\ pc = "end") => AllTrue(EndToEndClauses(src.alloc, src.mod, k, FastTable(k), last))
+LoopOptimal == (pc = "end" /\ HasShapes /\ (mode = "alloc" => Feasible(k, 1))) => LET T == Table(k) IN
                                               /\ last # <<>> /\ Obj(last) = BestT(T)
                                               /\ bound = BestT(T) + 1 /\ ~FeasibleT(T, bound)
-TableIsObj == (mode = "solve" /\ pc = "call") => \A e \in Table(k) : e[2] = Obj(e[1])
+TableIsObj == (mode \in {"solve", "alloc"} /\ pc = "call") => \A e \in Table(k) : e[2] = Obj(e[1])
 FastIsTable == pc = "start" => FastTable(k) = { <<MaskShape(e[1]), e[2]>> : e \in Table(k) }
 LoopNoShapes == (pc = "end" /\ ~HasShapes) => last = <<>>
 \* the bound only grows (termination of main's loop)
